@@ -282,4 +282,5 @@ func runC13(c *core.Ctx) {
 	jobs, deaths := pool.Stats()
 	c.Count("l2_jobs", jobs)
 	c.Count("l2_process_deaths", deaths)
+	c.Count("l2_priming_runs", pool.Primed())
 }
